@@ -9,7 +9,7 @@
     of the whitespace corruption it selects).  That is the code that exists, and what is modelled.
 
     Pieces taken from the other models (not redefined): [C11_Model.clean/remove/full/trim], [NFKC_Model.normalize_model],
-    [C14_Model.corrupt_cl] (the r-stream is drawn here from the item's seed with [RNG_Model.random_f64]),
+    [C14_Model.corrupt_cl] on [C14_Seeded.stream] (the r-stream drawn from the item's seed) with [C14_Seeded.thr],
     [C06_Model.find_subseq] (= [find_subsequences_of_max_size_k], used by [possible_byte_substrings]),
     [RNG_Model.random_range], [RNG_Model.fadd]/[fgt] (binary64 for the cumulative switch probabilities),
     [UAX29_Model.segment], [C10_Model.operations], [C01_Model.byte_tokenize].
@@ -20,7 +20,7 @@
     Outcomes: [ROk] / [RErr] (the [anyhow::Err] of the code: the loader drops the item) / [RPanic] (the code
     panics: index out of range, failed assertion, empty [random_range]). *)
 From TU Require Import RNG_Model.
-From TU Require Import Base UAX29_Model NFKC_Model C10_Model C14_Model.
+From TU Require Import Base UAX29_Model NFKC_Model C10_Model C14_Model C14_Seeded.
 From TU Require Import C11_Model C06_Model C01_Model.
 Open Scope N_scope.
 
@@ -41,8 +41,7 @@ Inductive part := PInput | PTarget.
 Record item := mk_item { it_in : str; it_tg : str }.
 Record info := mk_info { i_seed : N; i_file : nat; i_marks : list (str * str) }.
 
-(** [CharString::new(s, g)] *)
-Definition seg_of (g : bool) (s : str) : list cluster := if g then segment s else singletons s.
+(** [CharString::new(s, g)] is [C14_Seeded.seg_of g s] ([segment] or [singletons]) *)
 
 (** [HashMap::insert] on the marks (an association list without duplicate keys, order irrelevant:
     compared as a sorted list) *)
@@ -52,28 +51,10 @@ Fixpoint mark_insert (k v : str) (m : list (str * str)) : list (str * str) :=
   | (k', v') :: r => if nlist_eqb k k' then (k, v) :: r else (k', v') :: mark_insert k v r
   end.
 
-(** * the r-stream of a seed: [n] draws of [rng.random::<f64>()] from [seed_from_u64 seed] (numerators over 2^53) *)
-Fixpoint stream_from (n : nat) (st : rng) : list Z :=
-  match n with
-  | O => []
-  | S n' => let (k, st1) := random_f64 st in Z.of_N k :: stream_from n' st1
-  end.
-Definition stream (seed : N) (n : nat) : list Z := stream_from n (seed_from_u64 seed).
-
-(** * the f64 comparison [r < p] for r = k / 2^53: [k < thr p], thr p = ceil (p * 2^53) (exact: a comparison does
-    not round).  +inf clamps to 1, a negative p (and -0.0) to 0; NaN stays NaN through [clamp] and every comparison
-    with it is false, like a threshold 0 (also in [iw_p > 0. || dw_p > 0.]).  [C14_Model.clamp] is applied on top
-    by [corrupt_cl]/[accepted].  (The same definition as in C14_Seeded.v, which is being written at the same
-    time by another builder; to be unified.) *)
-Definition cdiv (a b : Z) : Z := (- ((- a) / b))%Z.
-Definition thr (p : f64w) : Z :=
-  match p with
-  | Fin m e => let s := (e + 53)%Z in
-               if (0 <=? s)%Z then (Z.of_N m * 2 ^ s)%Z else cdiv (Z.of_N m) (2 ^ (- s))
-  | FInf => (2 * D53)%Z
-  | FNaN => 0%Z
-  | FNeg => 0%Z
-  end.
+(** * from C14_Seeded.v: [stream seed n] = the first [n] draws of [rng.random::<f64>()] from [seed_from_u64 seed]
+    (numerators over 2^53); [thr p] = ceil (p * 2^53), the integer threshold that makes [k <? thr p] the f64
+    comparison [r < p] for r = k / 2^53 (+inf -> 2 * 2^53, NaN and negative -> 0; [C14_Model.clamp] is applied on top
+    by [corrupt_cl] / [accepted]) *)
 
 (** [corrupt_whitespace(iw, dw, g)(text, info)]: one draw per character, then C14's step function *)
 Definition ws_corrupt (iw dw : f64w) (g : bool) (seed : N) (s : str) : res str :=
